@@ -1,7 +1,7 @@
 SPECIFICATION Spec
 CONSTANTS
   Lens = {2, 3, 4}
-  NTraces = {2, 3}
+  NTraces = {1, 2, 3}
   Dens = {1, 2}
   MaxCalls = 2
 INVARIANT IntegerShiftIsRoll
